@@ -236,10 +236,16 @@ def run_harnesses(res, cfg, sc, tier, overlay_done=False):
             tmo = max(h.get("timeout", 600) for h in grp) + 120
             cwd = os.path.join(sc.dir, "ext") if crate == "ext" else None
             tdir = "target-kani-ext" if crate == "ext" else "target-kani"
-            r, timed_out, raw = run_group(sc, [fq_name(h) for h in grp], stub, jobs, tmo, res.log, cwd=cwd, tdir=tdir)
-            for h in grp:
-                full = [k for k in r if k.endswith("::" + h["name"])]
-                results[h["name"]] = r[full[0]] if full else {"status": "TIMEOUT" if timed_out else "MISSING", "text": raw[-1500:]}
+            # batches: one cargo-kani invocation with many harnesses keeps every goto binary in memory (measured: kani-driver itself
+            # grew to 51 GB with 25 harnesses and was OOM-killed)
+            bs = 6 if stub else 10
+            for b0 in range(0, len(grp), bs):
+                batch = grp[b0:b0 + bs]
+                tmo = max(h.get("timeout", 600) for h in batch) + 120
+                r, timed_out, raw = run_group(sc, [fq_name(h) for h in batch], stub, min(jobs, bs), tmo, res.log, cwd=cwd, tdir=tdir)
+                for h in batch:
+                    full = [k for k in r if k.endswith("::" + h["name"])]
+                    results[h["name"]] = r[full[0]] if full else {"status": "TIMEOUT" if timed_out else "MISSING", "text": raw[-1500:]}
     res.log["kani_cmd"] = " ; ".join(res.log.get("kani_cmds", []))
     have_cex = {}
     for h in want:
